@@ -8,19 +8,43 @@ BASE_NOTE = ("Trusted base: the reference model in harness/ref (bit-slice BIP39 
              "rapid v1.3.0 and the Go toolchain. Generated-input search never establishes absence.")
 
 # id -> (built, category, technique, level text, level note, design ref)
+BUILT = set("C01 C02 C05 C08 C09 C16".split())
+
+# id -> (category, technique, level text, extra note, design ref)
 P = {
- "C16": (True, "exploration",
+ "C01": ("exploration",
+         "differential testing against a bit-slice reference encoder: complete (language,size,position,index) pairwise table + rapid structured entropies",
+         "NewMnemonicByEntropy is compared byte-for-byte with an independent encoder over golden lists on a table that executes every (language, size, word position, 11-bit index) tuple and every first-SHA-256-byte value at every checksum width, plus tens of thousands (thorough: millions) of structured random entropies. Pairwise-complete, not exhaustive over 2^128..2^256 entropies.",
+         "", "6/C01"),
+ "C02": ("exploration",
+         "round-trip property (generate -> validate) over the pairwise table, leading-zero-byte sweeps, scripted and default randomness sources, and reference-assembled valid sentences",
+         "Every generated mnemonic (by entropy, by NewMnemonic under a scripted source and under the default source) and every sentence assembled from golden words with a reference-solved checksum must be accepted by CheckMnemonic and IsMnemonicValid; leading zero bytes k=0..size are enumerated for every size and language.",
+         "", "6/C02"),
+ "C05": ("exploration",
+         "round-trip through an independent decoder + metamorphic single-bit-flip relation",
+         "Sentences returned for the pairwise table and for random structured entropies are decoded by the reference decoder and must give back the entropy; for the random cases all ENT single-bit flips must change the sentence and decode to the flipped entropy.",
+         "", "6/C05"),
+ "C08": ("exploration",
+         "complete enumeration of the finite domain 10 x 2048 against embedded golden lists, plus accept-set scans per word",
+         "The word the API emits for each of the 10 x 2048 indices is compared with golden lists (digest-pinned) and checked for the stated structural facts; for each word, sentences containing it are scanned over candidate last words and the accepted set must equal the reference solution set for that index. Exhaustive over the finite domain; the canonical lists themselves are trusted data.",
+         "The golden Portuguese list has no external digest corroboration (checked structurally only).", "6/C08"),
+ "C09": ("exploration",
+         "exhaustive range enumeration of lengths and counts + rapid Int generation, with a counting randomness source installed through the verif hook",
+         "Every entropy length 0..4096 (thorough 0..65536, plus MiB sizes) and every word count in [-4096,4096] (thorough +-10^6), int extremes and values congruent to valid counts modulo 2^32 are tried; success iff one of the five sizes, otherwise the sentinel error, the empty string and zero reads of the source.",
+         "", "6/C09"),
+ "C16": ("exploration",
          "exhaustive range enumeration + rapid Int64 generation against a name table keyed by the declared constants",
          "Every Language value in [-100000,100000] (thorough: [-2^24,2^24]) plus all integer-width boundaries and random int64 draws is printed and compared with the declared identifier / \"Language(N)\"; panics are caught. The finite part people can reach by mistake is exhaustive; the rest of int64 is sampled.",
-         BASE_NOTE, "6/C16"),
+         "", "6/C16"),
 }
 ALL = ["C%02d" % i for i in range(1, 18)]
 
 checks = []
 na = []
 for pid in ALL:
-    if pid in P and P[pid][0]:
-        _, cat, tech, text, note, ref = P[pid]
+    if pid in P and pid in BUILT:
+        cat, tech, text, extra, ref = P[pid]
+        note = BASE_NOTE + (" " + extra if extra else "")
         checks.append({
             "property_id": pid,
             "quick_cmd": "./check %s quick" % pid,
